@@ -305,11 +305,11 @@ class C04(CoreProp):
     def project(self, header, lines): return [l for l in lines if l.startswith(('live', 'CRASH', 'freedata'))]
 
 class C07(CoreProp):
-    pid = 'C07'; props_file = 'Props_C07'; focus = {'ctx', 'life'}
+    pid = 'C07'; props_file = 'Props_C07'; focus = {'ctx', 'life', 'deny'}
     proj = Proj(rets=('finalize', 'loop', 'dispatch', 'quit', 'stats', 'settick', 'dereg', 'start'), exact=('ctxreg', 'ctxdereg', 'ctxlen', 'reg'),
                 cb=cb_stop, keep=('state', 'live'))
     rule = ('corpus + random programs biased to context register/deregister/finalize/loop/dispatch interleaved with module registration and '
-            'deregistration, also from callbacks; persistent and non-persistent contexts; non-trivial = distinct script with >= 2 context calls succeeding')
+            'deregistration, also from callbacks (incl. callbacks of deny-ctx modules, for which the context is hidden); persistent and non-persistent contexts; non-trivial = distinct script with >= 2 context calls succeeding')
 
 class C08(CoreProp):
     scenario = staticmethod(GC.gen_pill_case)
